@@ -14,10 +14,10 @@ ALGS = [1, 2, 3]
 
 
 def grid(quick):
-    ns = [1, 2, 3, 5] if quick else [1, 2, 3, 4, 5, 6, 8, 12]
+    ns = [1, 2, 3, 5] if quick else [1, 2, 3, 4, 5, 6, 7, 8, 9, 12, 16, 17]
     for n in ns:
         for alg in ALGS:
-            for place in ([0, 1] if quick else [0, 1, 7]):
+            for place in ([0, 1] if quick else [0, 1, 7, 100]):
                 auxs = [9999, 0, 1, 2, n, n + 1] if not quick else [9999, 0, 2, n + 1]
                 for aux in sorted(set(auxs)):
                     yield n, alg, place, aux
